@@ -25,7 +25,11 @@ pub struct Fault {
     pub start_ds: u16, // deciseconds
     pub dur_ds: u16,
     /// 0 black-hole both ways, 1 uplink-only loss, 2 reply-only loss, 3 handshake replies lost, 4 socket send error,
-    /// 5 re-opening the link's socket is refused (its source address is gone) - combined with a black hole
+    /// 5 re-opening the link's socket is refused (its source address is gone) - combined with a black hole,
+    /// 6 the receiver's REG2 answers (258 bytes, the only large handshake frame) are lost on this link, everything
+    /// else passes,
+    /// 7 a black hole that begins at an event instead of a time: the moment the first REG_NGP after `start_ds` has been
+    /// delivered to this link (it takes the REG1 turn and goes dark before the answer can come back)
     pub kind: u8,
 }
 
@@ -86,13 +90,22 @@ fn reopen_refused() -> impl Strategy<Value = Case> {
 /// answers); then the paths come back, but the first link goes dark again shortly afterwards and stays dark while
 /// the others are healthy: the session must still get established through them.
 fn cold_start() -> impl Strategy<Value = Case> {
-    (strategy_h(80, false), 60u16..130, 1u16..30, 300u16..600).prop_map(|(mut c, dark, gap, again)| {
+    (strategy_h(80, false), 60u16..130, 1u16..30, 300u16..600, 0u8..3).prop_map(|(mut c, dark, gap, again, variant)| {
         c.faults.clear();
         c.forgets.clear();
         for l in 0..c.n_links {
             c.faults.push(Fault { link: l, start_ds: 0, dur_ds: dark, kind: 0 });
         }
-        c.faults.push(Fault { link: 0, start_ds: dark + gap, dur_ds: again, kind: 0 });
+        if variant == 0 {
+            // the first link hears the receiver again but never gets a REG2 through: it takes the REG1 turn and
+            // cannot finish it, the others must still get theirs
+            c.faults.push(Fault { link: 0, start_ds: dark, dur_ds: again, kind: 6 });
+        } else if variant == 1 {
+            // the first link takes the REG1 turn and goes dark at that very moment
+            c.faults.push(Fault { link: 0, start_ds: dark, dur_ds: again, kind: 7 });
+        } else {
+            c.faults.push(Fault { link: 0, start_ds: dark + gap, dur_ds: again, kind: 0 });
+        }
         c.horizon_s = (dark + gap) / 10 + 60;
         c
     })
@@ -330,15 +343,37 @@ pub fn check(case: &Case, obs: &mut Obs, which: Which, ctx: &Ctx) -> CheckResult
     let mut last_hk = t0;
     let mut decisions = 0u64;
     let mut fault_kinds: BTreeSet<u8> = BTreeSet::new();
+    let trace = std::env::var_os("VERIF_FS_TRACE").is_some();
 
+    // event-triggered faults (kind 7): the time each one began, once it has
+    let trig: Vec<std::cell::Cell<Option<u64>>> = case.faults.iter().map(|_| std::cell::Cell::new(None)).collect();
     let fault_at = |l: usize, t: u64, kinds: &[u8]| -> bool {
-        case.faults.iter().any(|f| f.link as usize == l && kinds.contains(&f.kind) && {
-            let s = t0 + f.start_ds as u64 * 100;
-            t >= s && t < s + f.dur_ds as u64 * 100
+        case.faults.iter().enumerate().any(|(fi, f)| {
+            f.link as usize == l
+                && if f.kind == 7 {
+                    kinds.contains(&0) && trig[fi].get().is_some_and(|s| t >= s && t < s + f.dur_ds as u64 * 100)
+                } else {
+                    kinds.contains(&f.kind) && {
+                        let s = t0 + f.start_ds as u64 * 100;
+                        t >= s && t < s + f.dur_ds as u64 * 100
+                    }
+                }
         })
     };
-    // time after which no fault touches link l any more
-    let clear_after = |l: usize| -> u64 { case.faults.iter().filter(|f| f.link as usize == l).map(|f| t0 + (f.start_ds as u64 + f.dur_ds as u64) * 100).max().unwrap_or(t0) };
+    // time after which no fault touches link l any more (an event-triggered fault that has not begun counts from
+    // its earliest possible start)
+    let clear_after = |l: usize| -> u64 {
+        case.faults
+            .iter()
+            .enumerate()
+            .filter(|(_, f)| f.link as usize == l)
+            .map(|(fi, f)| if f.kind == 7 { trig[fi].get().map(|s| s + f.dur_ds as u64 * 100).unwrap_or(t0 + f.start_ds as u64 * 100) } else { t0 + (f.start_ds as u64 + f.dur_ds as u64) * 100 })
+            .max()
+            .unwrap_or(t0)
+    };
+    // the link the last REG1 frame was seen on (wire fact)
+    let mut last_reg1_link: Option<usize> = None;
+    let mut last_reg1_at: u64 = 0;
 
     // start-up as run_sender_with_config
     sh.start_probing();
@@ -388,6 +423,13 @@ pub fn check(case: &Case, obs: &mut Obs, which: Which, ctx: &Ctx) -> CheckResult
                     broken[l] = false; // a new source port: the socket was replaced, the injected failure is gone
                 }
                 last_port[l] = e.port;
+                if rc::packet_type(&e.bytes) == Some(rc::T_REG1) {
+                    last_reg1_link = Some(l);
+                    last_reg1_at = now;
+                }
+                if trace && rc::packet_type(&e.bytes).is_some_and(|t| t == rc::T_REG1 || t == rc::T_REG2) {
+                    eprintln!("+{:>6} ms  link {l} -> {:?} (port {}){}", now - t0, rc::packet_type(&e.bytes).map(|t| format!("{t:#06x}")), e.port, if fault_at(l, now, &[0, 1]) || broken[l] { "  LOST" } else { "" });
+                }
                 if fault_at(l, now, &[0, 1]) || broken[l] {
                     continue; // uplink direction lost
                 }
@@ -523,11 +565,23 @@ pub fn check(case: &Case, obs: &mut Obs, which: Which, ctx: &Ctx) -> CheckResult
             }
             let ty = rc::packet_type(&bytes);
             let handshake = matches!(ty, Some(rc::T_REG2) | Some(rc::T_REG3) | Some(rc::T_REG_NGP) | Some(rc::T_REG_ERR));
-            if fault_at(l, now, &[0, 2]) || (handshake && fault_at(l, now, &[3])) || broken[l] {
+            let lost = fault_at(l, now, &[0, 2]) || (handshake && fault_at(l, now, &[3])) || (ty == Some(rc::T_REG2) && fault_at(l, now, &[6])) || broken[l];
+            if trace && handshake {
+                eprintln!("+{:>6} ms  link {l} <- {:?}{}", now - t0, ty.map(|t| format!("{t:#06x}")), if lost { "  LOST" } else { "" });
+            }
+            if lost {
                 continue; // reply direction lost
             }
             if let Some(li) = sh.idx_of(a) {
                 let was_down = !sh.st.conns[li].connected;
+                if ty == Some(rc::T_REG_NGP) {
+                    for (fi, f) in case.faults.iter().enumerate() {
+                        if f.kind == 7 && f.link as usize == l && now >= t0 + f.start_ds as u64 * 100 && trig[fi].get().is_none() {
+                            trig[fi].set(Some(now));
+                            obs.class("went-dark-right-after-taking-the-reg1-turn");
+                        }
+                    }
+                }
                 sh.uplink_pkt(li, &bytes);
                 let m = &mut mons[li];
                 match ty {
@@ -613,6 +667,19 @@ pub fn check(case: &Case, obs: &mut Obs, which: Which, ctx: &Ctx) -> CheckResult
                 let since = last_forget.max(best.map(&clear_after).unwrap_or(u64::MAX));
                 let undisturbed = best.is_some() && now >= since;
                 let bound = timeout + 30_000 + 2 * max_hk_gap;
+                // finding F7 (DESIGN section 6): the REG1 turn is held, again and again, by a link that hears REG_NGP but
+                // whose REG2 answers are lost - identified by the wire (last REG1 on that link) and the fault in force
+                let holder = last_reg1_link.filter(|l| fault_at(*l, last_reg1_at, &[6]));
+                if undisturbed && now - since > bound && let Some(h) = holder {
+                    return crate::rt::viol(
+                        "registration-turn-held-by-link-losing-reg2-answers",
+                        format!(
+                            "{} ms after link {:?} could deliver again the sender has no group: every REG1 went to link {h}, which hears REG_NGP but loses every REG2 answer, and takes the turn again as soon as its 4 s wait ends; the healthy link's retries fall inside those waits and are deferred (socket re-opened, nothing sent)",
+                            now - since,
+                            best
+                        ),
+                    );
+                }
                 if undisturbed && now - since > bound {
                     return crate::rt::viol(
                         "group-not-re-created",
@@ -788,6 +855,9 @@ pub fn check(case: &Case, obs: &mut Obs, which: Which, ctx: &Ctx) -> CheckResult
             1 => "fault-uplink-loss",
             2 => "fault-reply-loss",
             3 => "fault-handshake-replies-lost",
+            5 => "fault-reopen-refused",
+            6 => "fault-reg2-answers-lost",
+            7 => "fault-blackhole-at-reg-ngp",
             _ => "fault-socket-send-error",
         });
     }
